@@ -49,6 +49,9 @@ Statements (rest = what follows).
   for i in range(e): B (no break/continue/else) -> Fixpoint <f>_loop<k> .. fuel v_i state: O => MRet state, S fuel => B then the
       recursive call with v_i + 1; called with (N.to_nat e) 0; state = variables existing before the loop that B assigns;
       its other parameters are the variables B mentions.
+Module level: only imports, the two byte constants (a literal; NAME[::-1] -> rev), class SyntaxError(Exception): pass, class
+Parser (no bases, methods only), main and the `if __name__ == '__main__'` tail; re struct polib encodings SyntaxError Parser and
+the builtins used must not be rebound.
 Not translated: Parser.__init__ (reads the file, cast('c'), creates self.instance, `del self._view`), Parser.parse, main.
 On failure a definition-free MoParserSrc.v is written (no stale translation survives) and the error is re-raised.
 """
@@ -456,7 +459,7 @@ class Fn:
             given[kw.arg] = kw.value
         ts = []
         for n, d in c['args']:
-            ts.append(self.typed(given[n], env, ['N'])[0] if n in given else d if d is not None else bad(e, 'missing argument ' + n))
+            ts.append(self.pure(given[n], env, 'N')[0] if n in given else d if d is not None else bad(e, 'missing argument ' + n))
         for o in c['oracles']:
             self.oracle(o)
         return (' '.join([c['coq']] + c['oracles'] + [self.attr(p, env)[0] for p in c['params']] + ts), c)
@@ -529,6 +532,10 @@ class Fn:
         live = [completes(b) for b, _ in branches]
         if not always_join and (sum(live) <= 1 or not rest):
             return mk(*[self.tr(b + (rest if l else []), e, k if l else self.dead) for (b, e), l in zip(branches, live)])
+        for b, _ in branches:
+            for st in b:
+                if any(isinstance(n, ast.Return) for n in ast.walk(st)):
+                    bad(st, 'return inside a block that is followed by other statements')
         exits = []
 
         def kb(e):
@@ -699,7 +706,8 @@ def generate():
                 elif isinstance(v, ast.Subscript) and isinstance(v.value, ast.Name) and v.value.id in CONSTS and ast.unparse(v.slice) == '::-1':
                     CONSTS[tg.id] = 'src_' + tg.id
                     out.append('Definition src_%s : bytes := rev %s.' % (tg.id, CONSTS[v.value.id]))
-        elif not isinstance(top, (ast.Expr, ast.If)):
+        elif not (isinstance(top, ast.Expr) and isinstance(top.value, ast.Constant)
+                  or isinstance(top, ast.If) and ast.unparse(top.test) == "__name__ == '__main__'" and ast.unparse(top.orelse) == 'del main'):
             bad(top, 'module-level statement')
         for n in names:
             bound.setdefault(n, []).append(top)
@@ -716,8 +724,8 @@ def generate():
     for n, text in IMPORTS.items():
         if len(bound.get(n, [])) != 1 or ast.unparse(bound[n][0]) != text:
             raise Unsupported('module-level name %s is not bound (only) by `%s`' % (n, text.split('\n')[0]))
-    for n in list(BUILTINS) + list(CONSTS):
-        if len(bound.get(n, [])) != (1 if n in CONSTS else 0):
+    for n in list(BUILTINS) + list(CONSTS) + ['Parser']:
+        if len(bound.get(n, [])) != (0 if n in BUILTINS else 1):
             raise Unsupported('module-level name %s is rebound' % n)
     out.append('')
     for m in ORDER:
